@@ -115,6 +115,11 @@ func runC11(c *Ctx) {
 		runC11CLI(c)
 	}
 
+	// ---- stream files: the same on journals spread over included files, under several goroutine schedules
+	if !c.Replay || c.OnlyStr == "files" {
+		runC11Files(c)
+	}
+
 	// ---- stream 2: partitions, alignment, property monitor
 	n := c.N(4000, 150000)
 	lasts := []int{0, 0, 0, 1, 2, 3, 5, 100, -1}
